@@ -11,6 +11,7 @@ use std::panic::{catch_unwind, AssertUnwindSafe};
 mod cases_bitvec;
 mod cases_bfv;
 mod cases_rank;
+mod cases_lenders;
 
 pub struct Rng(pub u64);
 impl Rng {
@@ -78,6 +79,7 @@ fn main() {
 fn dispatch(case: &str, ctx: &mut Ctx, one: Option<&str>, rng: &mut Rng, budget: usize) {
     match case {
         "bitvec_iter_ones" | "bitvec_iter_zeros" | "bitvec_ops" | "bitvec_stale" => cases_bitvec::run(case, ctx, one, rng, budget),
+        "lenders" => cases_lenders::run(case, ctx, one, rng, budget),
         "rank9" | "rank_all" => cases_rank::run(case, ctx, one, rng, budget),
         "bfv_ops" | "bfv_copy" | "bfv_unaligned" | "bfv_apply" => cases_bfv::run(case, ctx, one, rng, budget),
         _ => { eprintln!("unknown case {}", case); std::process::exit(2); }
